@@ -114,3 +114,67 @@ Definition calculate_mse (per_theta : list (list Qc)) (obs : list Qc) : result Q
        | _, _ => Ok (qmean (map (fun po => qsq (fst po - snd po))
                                (combine (predict_avg (length obs) per_theta) obs)))
        end.
+
+(* ---- vocabulary of the source translations (harness/src_functions.py C20_EV_*; Generated/SrcMetrics.v) ----
+   The meaning of ONE numpy call each; NaN is Err E_NAN as everywhere in this model (a NaN operand makes every later
+   mean / variance NaN, so raising at the first NaN denotes the same final value). *)
+Definition colvec : Type := list Qc.                       (* an (n, 1) array: o[:, None] *)
+(* P - c: an (n x m) matrix minus an (n, 1) column, broadcast along each row.  Another number of rows (numpy: broadcast of
+   a single row, else ValueError) is refused - the links prove the two counts equal for every constructed evaluation *)
+Definition np_sub_col (p : list (list Qc)) (c : colvec) : result (list (list Qc)) :=
+  if Nat.eqb (length p) (length c)
+  then Ok (map (fun ro => map (fun x => x - snd ro) (fst ro)) (combine p c)) else Err E_VALUE.
+(* x ** 2, elementwise *)
+Definition np_square2 (x : list (list Qc)) : list (list Qc) := map (map qsq) x.
+(* x.mean() of a 2-d array: the mean of all entries, NaN when there is none *)
+Definition np_mean_all (x : list (list Qc)) : result Qc :=
+  match concat x with [] => Err E_NAN | l => Ok (qmean l) end.
+(* x.mean(axis=1): the mean of each row; a row without entries gives NaN; no rows give the empty array *)
+Definition np_mean1 (x : list Qc) : result Qc := match x with [] => Err E_NAN | _ => Ok (qmean x) end.
+Definition np_mean_rows (x : list (list Qc)) : result (list Qc) := res_map_all np_mean1 x.
+(* np.var(x) of a 1-d array: population variance, NaN when it is empty *)
+Definition np_var (x : list Qc) : result Qc := match x with [] => Err E_NAN | _ => Ok (qvar x) end.
+(* P[:, sel] with sel a boolean mask over the columns: IndexError (tag 4) unless it has shape[1] entries *)
+Definition np_select_cols (ncols : nat) (sel : list bool) (p : list (list Qc)) : result (list (list Qc)) :=
+  if Nat.eqb (length sel) ncols then Ok (map (select sel) p) else Err 4%Z.
+(* chain_ids == c *)
+Definition np_eq_scalar (a : list Z) (v : Z) : list bool := map (fun x => (x =? v)%Z) a.
+(* the attribute stores of a ModelEvaluation object (the translated properties only read them) *)
+Definition set_ev_preds (e : evaluation) (v : list (list Qc)) : evaluation :=
+  {| ev_preds := v; ev_obs := ev_obs e; ev_chains := ev_chains e; ev_names := ev_names e |}.
+Definition set_ev_obs (e : evaluation) (v : list Qc) : evaluation :=
+  {| ev_preds := ev_preds e; ev_obs := v; ev_chains := ev_chains e; ev_names := ev_names e |}.
+Definition set_ev_chains (e : evaluation) (v : list Z) : evaluation :=
+  {| ev_preds := ev_preds e; ev_obs := ev_obs e; ev_chains := v; ev_names := ev_names e |}.
+
+(* ---- vocabulary of the source translations of predict_viability_avg / retrospective.calculate_mse (C20_PREDICT_AVG,
+   C20_CALC_MSE; Generated/SrcMetrics.v) ----
+   A theta is seen through the prediction vector it gives on the screen at hand (theta_t; the thetas are [per_theta], one
+   row per theta); a fully observed Screen through its observations (obs_screen; Screen.size = their number). *)
+Definition theta_t : Type := list Qc.
+Definition obs_screen : Type := list Qc.
+Definition E_UNMODELLED : Z := 96%Z.                      (* a value the exact-rational model cannot hold (inf) *)
+(* np.zeros((n,), dtype=float) *)
+Definition np_zeros1 (n : Z) : list Qc := repeat 0 (Z.to_nat n).
+(* np.isnan(x) on exact rationals: nowhere; m.any() *)
+Definition np_isnan1 (x : list Qc) : list bool := map (fun _ => false) x.
+Definition np_any1 (m : list bool) : bool := existsb (fun b => b) m.
+(* a + b / a - b on 1-d float arrays of one length (other lengths: broadcast of a single entry, else ValueError - refused) *)
+Definition np_add1 (a b : list Qc) : result (list Qc) :=
+  if Nat.eqb (length a) (length b) then Ok (vadd a b) else Err E_VALUE.
+Definition np_sub1 (a b : list Qc) : result (list Qc) :=
+  if Nat.eqb (length a) (length b) then Ok (map (fun p => fst p - snd p) (combine a b)) else Err E_VALUE.
+(* x ** 2 on a 1-d array *)
+Definition np_square1 (x : list Qc) : list Qc := map qsq x.
+(* v / n, n an int: entrywise; n = 0 gives NaN for a zero entry (0/0) and inf for any other - inf is not modelled *)
+Definition np_div_int (v : list Qc) (n : Z) : result (list Qc) :=
+  if (n =? 0)%Z then
+    (if forallb (qeqb 0) v then match v with [] => Ok [] | _ => Err E_NAN end else Err E_UNMODELLED)
+  else Ok (map (fun x => x / qofZ n) v).
+(* ---- vocabulary of the translation of ModelEvaluation.__init__ (C20_EV_INIT) ---- *)
+Definition set_ev_names (e : evaluation) (v : list (list Z)) : evaluation :=
+  {| ev_preds := ev_preds e; ev_obs := ev_obs e; ev_chains := ev_chains e; ev_names := v |}.
+(* len(predictions.shape) for predictions handed over as a list of rows and a claimed number of columns: it is a 2-d array
+   with that many columns exactly when every row has that many entries (any other value only has to differ from 2) *)
+Definition ndim_of (ncols : nat) (p : list (list Qc)) : Z :=
+  if forallb (fun r => Nat.eqb (length r) ncols) p then 2%Z else 1%Z.
